@@ -154,6 +154,45 @@ CLAIMED = {
                 note="The guest pops through ax's own POP (slot convention: see C04); the frame range judged for mapping/disjointness covers both conventions. "
                      "Padding allowance 48 bytes. init_stack (without arguments) is exercised by C10/C11 scenarios only.",
                 technique="TLA+ relational post-condition + TLC configuration enumeration; TLC validation of outcomes observed through guest POPs"),
+    "C15": dict(category="model_checking",
+                text="ElfLoad.tla states the load relationally on what is observable (segment file bytes at their virtual address, zero up to the memory "
+                     "size, permissions from the flags, RIP = entry, every address carrying a defined symbol resolves to a name defined there, areas "
+                     "disjoint). TLC enumerates configurations (segment count/order/pages incl. adjacent ones, size classes equal / bss tail / exact page "
+                     "multiples / 1 byte / empty, all 8 flag masks, non-load headers, symbol-table shapes) and checks that a reference image satisfies the "
+                     "post-condition and corrupted images are rejected. Every configuration (+ seeded random 2-3 segment ones) is written as a real ELF64 "
+                     "file by an own writer, loaded with from_binary and observed; TLC validates the observation. Bundled binaries are checked against "
+                     "their own headers.",
+                design_ref="DESIGN.md §3 C15",
+                note="Trusted: TLC, lib/elfgen.py. An address carrying only an unnamed symbol must resolve to the empty name. Segments with p_vaddr = 0 are outside the judged class.",
+                technique="TLA+ relational post-condition + TLC configuration enumeration; TLC validation of loads of generated ELF files"),
+    "C16": dict(category="exploration",
+                text="Loading is a total relation with outcomes {ok, err}. TLC enumerates mutations (24 header fields x 16 boundary values x header index; "
+                     "double mutations in the thorough tier); each is applied to a generated ELF with symbol table and to the bundled hello_world.bin, "
+                     "together with every header truncation point, body truncations, random byte flips and random strings. Each file is offered to "
+                     "from_binary in a supervised worker (catch_unwind, watchdog, address-space limit) whose global allocator records the largest "
+                     "single request; TLC validates each outcome against totality and the allocation bound.",
+                design_ref="DESIGN.md §3 C16",
+                note="All byte strings cannot be enumerated: structured mutations are, the rest is sampled. A request >= 2^32 bytes counts as unrelated to the input.",
+                technique="TLA+ mutation enumeration (TLC) + total outcome relation; supervised exploration with allocation accounting"),
+    "C19": dict(category="exploration",
+                text="Encoding.tla is a grammar of instruction encodings (prefixes x REX x opcode map x ModRM/SIB class x immediate size x implemented/any "
+                     "opcode); TLC enumerates all 22,620 shape classes. For each class the harness fills the free bits at random; plus uniform random "
+                     "strings, mutated valid encodings and the valid-encoding generators of C01-C06 with their class-specific extreme operands - each over "
+                     "random states (registers into mapped memory, at area ends, RSP at the top of the address space). One step() under catch_unwind with "
+                     "watchdog and supervisor; TLC validates every outcome against totality (ok | err).",
+                design_ref="DESIGN.md §3 C19",
+                note="2^120 strings cannot be enumerated; shape classes are. fatal_error!/opcode_unimplemented! return Err under cfg(ax_verif) as on wasm32.",
+                technique="TLA+ encoding grammar enumerated by TLC + total outcome relation; supervised exploration"),
+    "C20": dict(category="model_checking",
+                text="TwoRun.tla is a two-run product with a taint set; TLC checks that untainted registers agree in every reachable state and that agreement "
+                     "fails without the taint condition. Scenarios of the other drivers (random programs with hooks, brk, pipes, allocator histories, stack "
+                     "initialisation, generated ELF with aliased symbols) run on three independently constructed machines - two consecutively in one process "
+                     "and one in another process - after writing every randomised register explicitly; per action the observations (result, error text, "
+                     "registers, XMM, flags, memory digest, count, structured and rendered trace/call stack, handler state) are paired and TLC validates "
+                     "agreement, with pipe descriptor numbers normalised away.",
+                design_ref="DESIGN.md §3 C20",
+                note="to_string() is not compared (prints the hook table in HashMap order; not among the listed observables).",
+                technique="TLA+ two-run product model-checked with TLC; TLC validation of paired observations (same- and cross-process)"),
 }
 NOT_YET = {}
 
